@@ -392,6 +392,9 @@ static size_t ZSTD_seekable_loadSeekTable(ZSTD_seekable* zs)
         U32 const frameSize = tableSize + ZSTD_seekTableFooterSize + ZSTD_SKIPPABLEHEADERSIZE;
 
         U32 remaining = frameSize - ZSTD_seekTableFooterSize; /* don't need to re-read footer */
+        /* the format allows at most ZSTD_SEEKABLE_MAXFRAMES frames ; beyond it the 32-bit sizes above wrap
+         * and a tiny archive would be accepted with a table of billions of entries */
+        if (numFrames > ZSTD_SEEKABLE_MAXFRAMES) return ERROR(frameIndex_tooLarge);
         {   U32 const toRead = MIN(remaining, SEEKABLE_BUFF_SIZE);
             CHECK_IO(src.seek(src.opaque, -(S64)frameSize, SEEK_END));
             CHECK_IO(src.read(src.opaque, zs->inBuff, toRead));
